@@ -123,6 +123,7 @@ Proof.
   unfold Model.dispatch. intros Hd H.
   destruct (m_type m =? REQUEST).
   - unfold handle_request in H.
+    destruct (method_kind (m_name m) =? 3); [inversion H; subst; exact Hd|].
     destruct (method_kind (m_name m) =? 0).
     + destruct (send_msg _ _ _ _) as [[r1 e1] b1] eqn:E. inversion H; subst.
       eapply send_msg_dead; eauto.
@@ -137,6 +138,7 @@ Proof.
     + unfold handle_response in H. destruct (lookup _ _); inversion H; subst; exact Hd.
     + destruct (m_type m =? STREAM_REQUEST); [|inversion H; subst; exact Hd].
       unfold handle_stream_request in H.
+      destruct (method_kind (m_name m) =? 3); [inversion H; subst; exact Hd|].
       destruct (method_kind (m_name m) =? 0).
       * destruct (send_msg _ _ _ _) as [[r1 e1] b1] eqn:E. inversion H; subst.
         eapply send_msg_dead; eauto.
@@ -266,9 +268,12 @@ Proof.
     cbn in Eal. destruct Eal as (A1 & A2 & A3 & A4 & A5 & A6 & A7 & A8).
     destruct (ret <? size) eqn:Ers; [apply N.ltb_lt in Ers; lia|].
     apply N.eqb_neq in Ez.
-    apply body_phase_resume in H.
-    + destruct H as [D1 D2]. split; [exact D1|].
-      intros fut. rewrite R1, <- D2. unfold resume. cbn [closed expected current body].
+    destruct (body_phase true _ r rs) as [[[f6 r6] rest6] evs6] eqn:Eb.
+    inversion H; subst f' r' rest evs; clear H.
+    apply body_phase_resume in Eb.
+    + destruct Eb as [D1 D2]. split; [exact D1|].
+      intros fut. change (dispatched (?a :: evs6)) with (dispatched evs6).
+      rewrite R1, <- D2. unfold resume. cbn [closed expected current body].
       rewrite A8, A4, A5, A7. cbn [closed expected current body app].
       rewrite Hcl. apply N.eqb_neq in Ez. rewrite Ez. rewrite N.sub_0_r. reflexivity.
     + unfold FI; cbn. rewrite A4, A5, A6, A7. cbn. repeat split; try lia.
